@@ -1083,8 +1083,18 @@ Proof.
   - rewrite forallb_map. reflexivity.
 Qed.
 
+Lemma scope_eqb_refl a : scope_eqb a a = true.
+Proof. unfold scope_eqb. rewrite !str_eqb_refl. reflexivity. Qed.
+
+Lemma flow_eqb_refl a : flow_eqb a a = true.
+Proof.
+  unfold flow_eqb. rewrite !str_eqb_refl, (mset_eqb_refl_l scope_eqb scope_eqb_refl). reflexivity.
+Qed.
+
 Lemma scheme_eqb_refl a : scheme_eqb a a = true.
-Proof. unfold scheme_eqb. rewrite !str_eqb_refl. reflexivity. Qed.
+Proof.
+  unfold scheme_eqb. rewrite !str_eqb_refl, (mset_eqb_refl_l flow_eqb flow_eqb_refl). reflexivity.
+Qed.
 
 Lemma enum_typed_component v d : enum_typed (component v d) = enum_decl_ok v d.
 Proof.
@@ -1244,7 +1254,11 @@ Definition emb (n : String.string) (t : texpr) : field := mkField (s n) true Non
 
 Definition demo_cfg : dconfig :=
   mkDConfig (s "API") (s "1.2.3") (s "https://api.example.com")
-            [mkScheme (s "sec1") (s "apiKey") (s "header") (s "x-sec1")] None.
+            [mkScheme (s "sec1") (s "apiKey") (s "header") (s "x-sec1") [];
+             mkScheme (s "oauthy") (s "oauth2") [] []
+                      [mkFlow (s "implicit") (s "https://auth.example.com/authorize") [] [(s "read", s "Read access")];
+                       mkFlow (s "clientCredentials") [] (s "https://auth.example.com/token")
+                              [(s "write", s "Write access"); (s "admin", s "Admin access")]]] None.
 
 Definition ty (n : String.string) : texpr := TNamed (s "types") (s n).
 
@@ -1611,3 +1625,33 @@ Proof.
   specialize (H (nth 3 demo_decls color_decl)). vm_compute in H.
   assert (false = true) as F by (apply H; right; right; right; left; reflexivity). discriminate.
 Qed.
+
+(* the configuration clause looks at every flow: a document whose two flows both advertise the union
+   of the configured scopes is not the configuration's *)
+Definition union_flows (x : scheme) : scheme :=
+  mkScheme (sch_name x) (sch_type x) (sch_in x) (sch_field x)
+           (map (fun f => mkFlow (fl_kind f) (fl_auth_url f) (fl_token_url f)
+                                 (flat_map fl_scopes (sch_flows x))) (sch_flows x)).
+
+Lemma sections_flows_example :
+  sections_ok (u_cfg demo_u) demo_doc = true /\
+  sections_ok (u_cfg demo_u)
+    (mkDoc (doc_title demo_doc) (doc_version demo_doc) (doc_servers demo_doc)
+           (map union_flows (doc_schemes demo_doc)) (doc_ops demo_doc) (doc_comps demo_doc)) = false.
+Proof. vm_compute. split; reflexivity. Qed.
+
+(* two routes whose templates differ only in a variable name never get a document written *)
+Definition renamed_u : universe :=
+  mkUniverse demo_cfg []
+    [mkCtrl (s "Ctl") [] []
+       [mkRoute (s "A") (s "GET") (s "/items/{id}") false [mkRParam (s "id") LPath None Tstr None]
+                (Some Tstr) None [] [];
+        mkRoute (s "B") (s "DELETE") (s "/items/{itemId}") false [mkRParam (s "itemId") LPath None Tstr None]
+                None None [] []]].
+
+Lemma renamed_example :
+  gleece_accepts renamed_u = true /\
+  cmd lib_model_ok (lib_model_ok_v V31) V30 renamed_u = Failed /\
+  cmd lib_model_ok (lib_model_ok_v V31) V31 renamed_u = Failed /\
+  match emit V30 renamed_u with Some d => wf d | None => false end = true.
+Proof. vm_compute. repeat split. Qed.
